@@ -40,10 +40,11 @@ func (subElemAddr) isAddr() {}
 // ------------------------------------------------------------------ frame
 
 type retEdge struct {
-	cond string
-	st   *State
-	vals []T
-	pos  string
+	cond  string
+	st    *State
+	vals  []T
+	pos   string
+	block *ssa.BasicBlock
 }
 
 type deferRec struct {
@@ -1157,7 +1158,7 @@ func (f *frame) frameCandidates(changed []string) []string {
 	e := f.e
 	var out []string
 	for _, name := range changed {
-		if strings.HasPrefix(name, "*") || name == "W" || name == "EXCL" {
+		if strings.HasPrefix(name, "*") || name == "W" || name == "EXCL" || strings.HasPrefix(name, "VIS_") || strings.HasPrefix(name, "LAST") || strings.HasPrefix(name, "CALLED_") || strings.HasPrefix(name, "COUNT_") {
 			continue
 		}
 		if !strings.HasPrefix(e.heapSort[name], "(Array Int ") || changedClass(changed, e.class(name)) {
@@ -1328,7 +1329,7 @@ func (f *frame) execBlock(b *ssa.BasicBlock, st *State, rc *runCtx) {
 				vs = append(vs, f.val(r, st))
 			}
 			_, rp := f.anchor(i)
-			f.rets = append(f.rets, retEdge{st.cond, st.clone(), vs, rp})
+			f.rets = append(f.rets, retEdge{st.cond, st.clone(), vs, rp, b})
 			return
 		case *ssa.Panic:
 			if f.panicsIff(i, st) {
